@@ -51,8 +51,23 @@ fn k2_trigger(fm: &FragMovie) -> bool {
 }
 
 fn eval(id: &str, fm: &FragMovie, rep: &mut Report, args: &Args) {
+    eval_x(id, fm, rep, args, None)
+}
+
+/// `large`: Some(seed) gives a pseudo-random third of the boxes INSIDE every movie fragment
+/// box (mfhd, traf, tfhd, tfdt, trun) the 64-bit size header; nothing else changes.
+fn eval_x(id: &str, fm: &FragMovie, rep: &mut Report, args: &Args, large: Option<u64>) {
     rep.begin(id);
-    let b = build_fragmented(fm);
+    let b = build_fragmented_x(fm, &|_| {}, &|bx| {
+        if let Some(s) = large {
+            if &bx.typ == b"moof" {
+                crate::layoutx::mark_large_in(bx, s, 3);
+            }
+        }
+    });
+    if large.is_some() {
+        rep.add("movies_with_64bit_headers_inside_moof", 1);
+    }
     let ids: Vec<u32> = fm.movie.tracks.iter().map(|t| t.id).collect();
     let opts = Opts { compare_sync: false, bytes_from_file: false };
     let mut fails = Vec::new();
@@ -192,7 +207,8 @@ pub fn run(args: &Args) -> i32 {
         }
         // random mode stays outside the K2 region: all tracks share the trex defaults
         let fm = gen_frag_movie(&mut rng, mf, mt, mr, true);
-        eval(&id, &fm, &mut rep, args);
+        let large = if i % 6 == 5 { Some(rng.next_u64()) } else { None };
+        eval_x(&id, &fm, &mut rep, args, large);
         if rep.too_many_fails() {
             return rep.finish();
         }
